@@ -200,3 +200,11 @@ func vfFlatten(docs [][]vfADoc) []vfADoc {
 	}
 	return out
 }
+
+func vfBitmapOf(nums []uint32) *roaring.Bitmap {
+	b := roaring.NewBitmap()
+	for _, n := range nums {
+		b.Add(n)
+	}
+	return b
+}
